@@ -452,7 +452,7 @@ func checkWellFormed(rep *Report, raw string, graphIDs map[string]bool, names ma
 
 func C12(e *core.Env) {
 	res := e.Res
-	res.Rule = "cases = (profile, graph); profiles built from the C01 formula generator so that results carry several traces (or-branches), sub-results to depth <= 3 (quick) / 4 (thorough), several results per node and per level, with and without lexical locations; " +
+	res.Rule = "cases = (profile, graph); profiles built from the C01 formula generator so that results carry several traces (or-branches), sub-results to depth <= 3 (quick) / 4 (thorough), a sub-result list of 70 / 150 entries, every atom kind plain and negated (incl. property-pair comparisons), several results per node and per level, with and without lexical locations; " +
 		"plus 16 YAML spellings of the message (absent, blank, null, number, boolean, date, sequence, mapping, tagged, quoted, block) and 12 goroutines x 4 (quick) / 25 (thorough) reports built at once from one compiled profile; each report: JSON shape, every @id of a typed node unique, focus nodes in the graph, names in the profile, message and trace non-empty, and the positional id scheme equal to the model's; non-trivial = the report has a result with a sub-result or more than one trace; distinct by (profile, graph)"
 	cnt := func(p string, k int) FForm {
 		return fAtom(FAtom{Kind: "count", Q: "min", Path: Pr(p, false), K: k})
@@ -482,6 +482,18 @@ func C12(e *core.Env) {
 		return f
 	}
 	forms = append(forms, chain(e.Pick(6, 7)), chain(2))
+	// every atom kind, plain and negated (each trace entry names its component), incl. the property-pair comparisons
+	c0p, c1p, p0p := Pr("ex.c0", false), Pr("ex.c1", false), Pr("ex.p0", false)
+	kinds := []FAtom{
+		{Kind: "cmp", Q: "lt", Path: c0p, Path2: c1p}, {Kind: "cmp", Q: "le", Path: c0p, Path2: c1p}, {Kind: "cmp", Q: "eq", Path: p0p, Path2: c0p}, {Kind: "cmp", Q: "ne", Path: c0p, Path2: c1p},
+		{Kind: "num", Q: "ge", Path: c0p, K: 5}, {Kind: "num", Q: "lt", Path: c0p, K: 1}, {Kind: "pattern", Q: "prefix", Path: p0p, S: "y"}, {Kind: "length", Q: "max", Path: p0p, K: 2},
+		{Kind: "containsAll", Path: p0p, Strs: []string{"yes"}}, {Kind: "containsSome", Path: p0p, Strs: []string{"yes", "maybe"}}, {Kind: "datatype", Path: c0p, S: "string"}, {Kind: "count", Q: "exact", Path: c1p, K: 1},
+	}
+	for i := 0; i+1 < len(kinds); i += 2 {
+		forms = append(forms, fAnd(fNot(fAtom(kinds[i])), fAtom(kinds[i+1])), fOr(fAtom(kinds[i]), fNot(fAtom(kinds[i+1]))), fIf(fAtom(kinds[i]), fNot(fAtom(kinds[i+1]))))
+	}
+	// one focus node whose nested constraint fails for many inner nodes (a long sub-result list)
+	forms = append(forms, fNested("all", 0, Pr("ex.many", false), cnt("ex.c0", 1)))
 	if !e.Quick() {
 		forms = append(forms, fNested("all", 0, kid, fNested("all", 0, kid, fNested("all", 0, kid, fOr(cnt("ex.c0", 1), in("ex.p0"))))))
 		for i := 0; i < 40; i++ {
@@ -536,6 +548,25 @@ func C12(e *core.Env) {
 			node.Props = append(node.Props, GProp{Iri: ExNS + "other", Vals: []GVal{VR(NodeID((i + 1) % n))}})
 		}
 		g.Nodes = append(g.Nodes, node)
+	}
+	// node 0 also links, through ex.many, to 70 (quick) / 150 (thorough) leaves without ex.c0
+	for i := 0; i < e.Pick(70, 150); i++ {
+		leaf := GNode{ID: NodeID(100 + i), Types: []string{ExNS + "Leaf"}, Props: []GProp{{Iri: ExNS + "p0", Vals: []GVal{VS("no")}}}}
+		g.Nodes = append(g.Nodes, leaf)
+		g.Nodes[0].Props = append(g.Nodes[0].Props, GProp{Iri: ExNS + "many", Vals: nil})
+	}
+	{
+		links := []GVal{}
+		for i := 0; i < e.Pick(70, 150); i++ {
+			links = append(links, VR(NodeID(100+i)))
+		}
+		kept := []GProp{}
+		for _, pr := range g.Nodes[0].Props {
+			if pr.Iri != ExNS+"many" {
+				kept = append(kept, pr)
+			}
+		}
+		g.Nodes[0].Props = append(kept, GProp{Iri: ExNS + "many", Vals: links})
 	}
 	datas := []string{g.JSONLD(), withLexical(g)}
 	graphIDs := map[string]bool{}
